@@ -262,6 +262,12 @@ class Program:
             for k in keys:
                 if k in MODELS:
                     return ('model', MODELS[k], c)
+            # a provided (default) method of one of the crate's own traits: `fn Trait::method` in the MIR, with Self = the implementing type
+            prov = [f for f in self.fns if f.name == '%s::%s' % (tr[1], c.method) or f.name.endswith('::%s::%s' % (tr[1], c.method))]
+            if len(prov) == 1 and self.find_impl(tr, st) is not None:
+                env = dict(self.find_impl(tr, st)[1])
+                env['Self'] = st
+                return ('mir', prov[0], Env(env))
             raise Unsupported('no impl or model for %r (from %s)' % (c, text))
         if c.kind == 'inherent':
             st = c.self_ty
@@ -390,6 +396,11 @@ class Interp:
             idx = fr.locs[p[2]]
             if not isinstance(idx, int):
                 raise Unsupported('symbolic index')
+            if isinstance(obj, (RStr, StringBuf)):
+                # a byte of `str::as_bytes()` (read-only view)
+                if idx >= len(obj.b):
+                    raise Panic('index out of bounds')
+                return list(obj.b), idx
             if idx >= len(obj.items):
                 raise Panic('index out of bounds')
             return obj.items, idx
@@ -543,6 +554,16 @@ class Interp:
                 if isinstance(v, int):
                     raise Unsupported('bitwise not on int')
                 return z3.Not(v) if z3.is_bool(v) else ~v
+            if r[1] == 'PtrMetadata':
+                # the length of a slice / str behind a fat pointer
+                d = v
+                while isinstance(d, Ref):
+                    d = d.get()
+                if isinstance(d, (RStr, StringBuf)):
+                    return len(d.b)
+                if isinstance(d, VecVal):
+                    return len(d.items)
+                raise Unsupported('PtrMetadata of %r' % (d,))
             raise Unsupported('unop ' + r[1])
         if k == 'cast':
             return self.cast(self.operand(fr, r[1]), r[2], r[3])
